@@ -150,7 +150,7 @@ def run(R):
         R.encode(c.ref, c.text)
     R.extra['float_cuts'] = applied
     expected = {q: r for _, q, _, r in H.CUT_SPECS}
-    missing = [c.qualname for c in cuts if not c.applied]
+    missing = [c.qualname for c, spec in zip(cuts, H.CUT_SPECS) if {a['rule'] for a in c.applied} != set(spec[3])]
     R.log(f'[C12] float cuts applied: {[(a["function"], a["rule"]) for a in applied]}'
           + (f'; NOT matched (checked uncut): {missing}' if missing else ''))
     if missing:
@@ -211,6 +211,11 @@ def run(R):
         else:
             R.ob(name, 'not_discharged', dt, {'crosshair': msg[-300:]})
         R.sample({'condition': fn, 'verdict': v, 'secs': round(dt, 1), 'twin': rv})
+    open_obs = [o['name'] for o in R.obligs if o['status'] == 'not_discharged']
+    if missing and open_obs and not R.violations:
+        # a float leaf was edited so that its idiom is no longer recognised and the uncut leaf could not be decided:
+        # the source is no longer translatable => inconclusive (exit 2), never a silent pass
+        raise HarnessError(f'float idiom no longer recognised in {missing} and {len(open_obs)} obligations on the uncut code are undecided')
 
 
 def replay(path):
